@@ -3,7 +3,7 @@
   Theorems about `executeFieldsSerially` / `serialNext` (the `args` queue + `resolved_fields` state machine
   of `Executor.execute_fields_serially`) under EVERY schedule, and about the blocking executor.
 -/
-import PyGqlModel.Lemmas.ExecEv
+import PyGqlModel.Lemmas.ExecSerial
 
 set_option linter.unusedVariables false
 set_option linter.unusedSimpArgs false
@@ -87,46 +87,52 @@ theorem failure_does_not_stop (path : Path) (key : String) (resolved : List (Str
   · intro m
     simp only [denFlds, denOut]; cases denFlds args <;> rfl
 
-/-- outstanding task ids inside a node -/
-def tasks : Node → List Nat
-  | .task id _ _ _ => [id]
-  | .done r => tasks r
-  | .chain src _ => tasks src
-  | .unwrap src => tasks src
-  | .gather slots _ _ => tasksOfSlots slots
-  | _ => []
-where tasksOfSlots : Nodes → List Nat
-  | .nil => []
-  | .cons n ns => tasks n ++ tasksOfSlots ns
-
-/-- The full statement on traces: in the trace of EVERY schedule, when the resolver of a top-level
-    field is invoked, every resolver invoked before has finished (calls = dones in the prefix). -/
+/-- The statement on traces: in the trace of EVERY schedule of every mutation, when the resolver of a
+    top-level field is invoked, every resolver invoked before (all of them belong to earlier top-level
+    fields and their sub-selections) has finished: calls = dones in the prefix. -/
 def SerialOrderFull : Prop :=
   ∀ (fields : Flds) (schedule : List Nat) (pre post : List Ev) (k : String),
     (runAsync ⟨.mutation, fields⟩ schedule).trace = pre ++ Ev.call [.key k] :: post →
-    (pre.filter (fun e => match e with | .call _ => true | _ => false)).length
-      = (pre.filter (fun e => match e with | .done _ => true | _ => false)).length
+    ncalls pre = ndones pre
 
-/-- **serial_order_partial.** The state-machine form of C09's ordering, for every state a schedule can
-    reach: (1) while the node of the current top-level field is pending, completing any task leaves the
-    serial callback un-fired — the next field's resolver is not invoked and nothing is recorded by it;
-    (2) the callback fires exactly when that node has finished, and a finished field node (executor
-    built: `flat`) holds NO outstanding task — its whole sub-selection has completed;
-    (3) the callback then runs `_next` on `args`, whose head is the next field in document order.
-    Missing w.r.t. `SerialOrderFull`: the transfer from tree states to positions in the event trace
-    (checked by the correspondence on the traces of all schedules of every generated mutation). -/
-theorem serial_order_partial (path : Path) (key : String) (resolved : List (String × V)) (args : Flds)
+/-- **serial_order.** For every mutation, every assignment of resolver modes (sync, deferred, nested
+    deferred, already finished), every outcome (values, resolver errors, unexpected exceptions) and EVERY
+    schedule: at the position of each top-level `call` in the event trace, the number of resolver
+    invocations before it equals the number of resolver completions before it — the resolver of a
+    top-level field is never invoked while any resolver of an earlier field or of its sub-selection is
+    still outstanding.
+    Proof: the balance invariant `calls = dones + |task leaves of the tree|` holds as long as no node has
+    literally failed with an unexpected exception (then no further top-level call happens); the serial
+    callback fires only when the current field's node has finished, where the tree holds no task. -/
+theorem serial_order : SerialOrderFull := by
+  intro fields schedule pre post k htrace
+  have hx := execute_serial fields
+  unfold runAsync at htrace
+  cases hr : execute ⟨.mutation, fields⟩ {} with
+  | mk r s =>
+    rw [hr] at hx htrace
+    cases r with
+    | exc e => exact hx pre k post htrace
+    | ok top =>
+      simp only at hx htrace
+      exact runSched_serial schedule top s [] hx pre k post htrace
+
+/-- **serial_order_tree** (state-machine form, kept as a readable companion of `serial_order`):
+    (1) while the node of the current top-level field is pending, completing any task leaves the serial
+    callback un-fired; (2) a finished field node (executor built: `flat`) holds NO outstanding task;
+    (3) the callback then runs `_next` on `args`, whose head is the next field in document order. -/
+theorem serial_order_tree (path : Path) (key : String) (resolved : List (String × V)) (args : Flds)
     (src : Node) (s : ExecSt) :
     (src.isPending = true →
         chainOnFinish applyCont src (.serialCb path key resolved args) s
           = (.chain src (.serialCb path key resolved args), s))
-    ∧ (src.finished = true → flat src = true → tasks src = [])
+    ∧ (src.finished = true → flat src = true → ntasks src = 0)
     ∧ (∀ v, applyCont (.serialCb path key resolved args) (.ok (.data v)) s
           = serialNext path (resolved ++ [(key, v)]) args s) := by
   refine ⟨?_, ?_, ?_⟩
   · intro h; cases src <;> simp_all [chainOnFinish, Node.isPending, Node.finished]
   · intro hfin hflat
-    rcases flat_finished src hflat hfin with ⟨x, rfl⟩ | ⟨x, rfl⟩ | ⟨e, rfl⟩ <;> simp [tasks]
+    rcases flat_finished src hflat hfin with ⟨x, rfl⟩ | ⟨x, rfl⟩ | ⟨e, rfl⟩ <;> simp [ntasks]
   · intro v; simp [applyCont]
 
 /-- **blocking_serial.** `BlockingExecutor.execute_fields_serially` is `execute_fields`: field `j+1` is
